@@ -79,7 +79,7 @@ Ltac lem0 := eauto with plen.
 Definition expr_len_stmt (fuel : nat) : Prop :=
   (forall d pr ts, LT (p_expr fuel d pr ts) (List.length ts)) /\
   (forall d ts, LT (p_primary fuel d ts) (List.length ts)) /\
-  (forall d pr e ts, LE (p_loop fuel d pr e ts) (List.length ts)) /\
+  (forall d c pr e ts, LE (p_loop fuel d c pr e ts) (List.length ts)) /\
   (forall d o rp ts, LE (p_collect fuel d o rp ts) (List.length ts)) /\
   (forall d ts, LT (p_args fuel d ts) (List.length ts)) /\
   (forall d ts, LT (p_args1 fuel d ts) (List.length ts)).
@@ -94,8 +94,8 @@ Proof.
     all: try (destruct (is_cast r)). all: repeat len_step lem0.
   - cbn [p_loop]. destruct ts as [|t r]; [len_leaf|].
     destruct (bin_of t) as [[[o lv] rp]|].
-    + destruct (pr <=? lv); [|len_leaf]. repeat len_step lem0.
-    + destruct (nary_of t) as [[[o lv] rp]|]; [|len_leaf]. destruct (pr <=? lv); [|len_leaf]. repeat len_step lem0.
+    + destruct (pr <=? lv); [|len_leaf]. destruct c; [exact I|]. repeat len_step lem0.
+    + destruct (nary_of t) as [[[o lv] rp]|]; [|len_leaf]. destruct (pr <=? lv); [|len_leaf]. destruct c; [exact I|]. repeat len_step lem0.
   - cbn [p_collect]. destruct ts as [|t r]; [len_leaf|]. destruct (is_nop o t); [|len_leaf]. repeat len_step lem0.
   - cbn [p_args]. destruct ts as [|t r]; [repeat len_step lem0|]. destruct t; repeat len_step lem0.
   - cbn [p_args1]. repeat len_step lem0.
@@ -103,7 +103,7 @@ Qed.
 
 Lemma p_expr_len f d pr ts : LT (p_expr f d pr ts) (List.length ts).  Proof. apply expr_len. Qed.
 Lemma p_primary_len f d ts : LT (p_primary f d ts) (List.length ts).  Proof. apply expr_len. Qed.
-Lemma p_loop_len f d pr e ts : LE (p_loop f d pr e ts) (List.length ts).  Proof. apply expr_len. Qed.
+Lemma p_loop_len f d c pr e ts : LE (p_loop f d c pr e ts) (List.length ts).  Proof. apply expr_len. Qed.
 Lemma p_collect_len f d o rp ts : LE (p_collect f d o rp ts) (List.length ts).  Proof. apply expr_len. Qed.
 Lemma p_args_len f d ts : LT (p_args f d ts) (List.length ts).  Proof. apply expr_len. Qed.
 Lemma p_args1_len f d ts : LT (p_args1 f d ts) (List.length ts).  Proof. apply expr_len. Qed.
